@@ -13,10 +13,8 @@
 (assert (forall ((s Str)) (! (>= (str-len s) 0) :pattern ((str-len s)))))
 (declare-sort Flt 0)
 (declare-const flt-zero Flt)
-; slice-relative index: at(off, i) = off + i, kept uninterpreted so that quantifier
-; triggers never contain arithmetic
-(declare-fun at (Int Int) Int)
-(assert (forall ((o Int) (i Int)) (! (= (at o i) (+ o i)) :pattern ((at o i)))))
+; quantifiers over slice elements are stated over absolute row positions, so that
+; their triggers are plain (select row j) terms without arithmetic
 ; Go's truncated division / remainder
 (define-fun tdiv ((a Int) (b Int)) Int (ite (>= a 0) (div a b) (- (div (- a) b))))
 (define-fun tmod ((a Int) (b Int)) Int (- a (* b (tdiv a b))))
@@ -36,7 +34,7 @@
 ; clause of DIMACS integers satisfied
 ;@sig csat : row int asg -> bool
 (define-fun csat ((R (Array Int Int)) (o Int) (n Int) (A (Array Int Bool))) Bool
-  (exists ((k Int)) (and (<= 0 k) (< k n) (tvi A (select R (at o k))))))
+  (exists ((j Int)) (! (and (<= o j) (< j (+ o n)) (tvi A (select R j))) :pattern ((select R j)))))
 
 ; ---------------------------------------------------------------- pbSet semantics (cutting planes)
 ; weights row W (index = variable), assignment A: sum of |W[v]| over v < n whose literal is true
@@ -45,7 +43,7 @@
 ;@sig vsum : row asg int -> int
 (declare-fun vsum ((Array Int Int) Int (Array Int Bool) Int) Int)
 (assert (forall ((R (Array Int Int)) (o Int) (A (Array Int Bool)) (n Int))
-  (! (= (vsum R o A n) (ite (<= n 0) 0 (+ (vsum R o A (- n 1)) (vterm (select R (at o (- n 1))) (select A (- n 1))))))
+  (! (= (vsum R o A n) (ite (<= n 0) 0 (+ (vsum R o A (- n 1)) (vterm (select R (+ o (- n 1))) (select A (- n 1))))))
      :pattern ((vsum R o A n)))))
 ;@lemma vsum_store_outside
 (assert (forall ((R (Array Int Int)) (j Int) (v Int) (o Int) (A (Array Int Bool)) (n Int))
@@ -62,10 +60,79 @@
 (assert (forall ((W (Array Int Int)) (o Int) (M (Array Int Int)) (mo Int) (wi Int) (n Int))
   (! (= (rsum W o M mo wi n)
         (ite (<= n 0) 0 (+ (rsum W o M mo wi (- n 1))
-             (ite (and (not (= (select W (at o (- n 1))) 0)) (not (= (tmod (select W (at o (- n 1))) wi) 0)) (nonfals (select M (at mo (- n 1))) (select W (at o (- n 1)))))
-                  (absi (select W (at o (- n 1)))) 0))))
+             (ite (and (not (= (select W (+ o (- n 1))) 0)) (not (= (tmod (select W (+ o (- n 1))) wi) 0)) (nonfals (select M (+ mo (- n 1))) (select W (+ o (- n 1)))))
+                  (absi (select W (+ o (- n 1)))) 0))))
      :pattern ((rsum W o M mo wi n)))))
 ;@lemma rsum_store_outside
 (assert (forall ((W (Array Int Int)) (j Int) (v Int) (o Int) (M (Array Int Int)) (mo Int) (wi Int) (n Int))
   (! (=> (or (< j o) (>= j (+ o n))) (= (rsum (store W j v) o M mo wi n) (rsum W o M mo wi n)))
      :pattern ((rsum (store W j v) o M mo wi n)))))
+
+; ---------------------------------------------------------------- weighted sums over DIMACS literals
+; isum(L, W, A, n) = sum over k < n of wt(W,k) * [tvi(A, L[k])]; wt is 1 when W is nil (wn)
+;@sig iterm : int int asg -> int
+(define-fun iterm ((l Int) (w Int) (A (Array Int Bool))) Int (ite (tvi A l) w 0))
+;@sig isum : row rowz asg int -> int
+(declare-fun isum ((Array Int Int) Int (Array Int Int) Int Bool (Array Int Bool) Int) Int)
+(assert (forall ((L (Array Int Int)) (lo Int) (W (Array Int Int)) (wo Int) (wn Bool) (A (Array Int Bool)) (n Int))
+  (! (= (isum L lo W wo wn A n)
+        (ite (<= n 0) 0 (+ (isum L lo W wo wn A (- n 1))
+             (iterm (select L (+ lo (- n 1))) (ite wn 1 (select W (+ wo (- n 1)))) A))))
+     :pattern ((isum L lo W wo wn A n)))))
+;@lemma isum_ext
+(assert (forall ((L1 (Array Int Int)) (W1 (Array Int Int)) (L2 (Array Int Int)) (W2 (Array Int Int)) (lo Int) (wo Int) (wn Bool) (A (Array Int Bool)) (n Int))
+  (! (=> (and (forall ((j Int)) (! (=> (and (<= lo j) (< j (+ lo n))) (= (select L1 j) (select L2 j))) :pattern ((select L1 j)) :pattern ((select L2 j))))
+              (or wn (forall ((j Int)) (! (=> (and (<= wo j) (< j (+ wo n))) (= (select W1 j) (select W2 j))) :pattern ((select W1 j)) :pattern ((select W2 j))))))
+         (= (isum L1 lo W1 wo wn A n) (isum L2 lo W2 wo wn A n)))
+     :pattern ((isum L1 lo W1 wo wn A n) (isum L2 lo W2 wo wn A n)))))
+;@lemma isum_update_L
+(assert (forall ((L (Array Int Int)) (j Int) (v Int) (lo Int) (W (Array Int Int)) (wo Int) (wn Bool) (A (Array Int Bool)) (n Int))
+  (! (= (isum (store L j v) lo W wo wn A n)
+        (ite (and (<= lo j) (< j (+ lo n)))
+             (+ (isum L lo W wo wn A n)
+                (- (iterm v (ite wn 1 (select W (+ wo (- j lo)))) A) (iterm (select L j) (ite wn 1 (select W (+ wo (- j lo)))) A)))
+             (isum L lo W wo wn A n)))
+     :pattern ((isum (store L j v) lo W wo wn A n)))))
+;@lemma isum_update_W
+(assert (forall ((L (Array Int Int)) (j Int) (v Int) (lo Int) (W (Array Int Int)) (wo Int) (wn Bool) (A (Array Int Bool)) (n Int))
+  (! (= (isum L lo (store W j v) wo wn A n)
+        (ite (and (not wn) (<= wo j) (< j (+ wo n)))
+             (+ (isum L lo W wo wn A n)
+                (- (iterm (select L (+ lo (- j wo))) v A) (iterm (select L (+ lo (- j wo))) (select W j) A)))
+             (isum L lo W wo wn A n)))
+     :pattern ((isum L lo (store W j v) wo wn A n)))))
+; deleting the zero-weight entry i by shifting the tail left (GtEq): explicit lemma instance
+;@sig lem_isum_delete : row row row row asg int int -> bool
+(declare-fun lem_isum_delete ((Array Int Int) Int (Array Int Int) Int (Array Int Int) Int (Array Int Int) Int (Array Int Bool) Int Int) Bool)
+;@lemma isum_delete
+(assert (forall ((L2 (Array Int Int)) (lo2 Int) (W2 (Array Int Int)) (wo2 Int) (L (Array Int Int)) (lo Int) (W (Array Int Int)) (wo Int) (A (Array Int Bool)) (n Int) (i Int))
+  (! (and (lem_isum_delete L2 lo2 W2 wo2 L lo W wo A n i)
+      (=> (and (<= 0 i) (< i n) (= (select W (+ wo i)) 0)
+               (forall ((j Int)) (! (=> (and (<= lo2 j) (< j (+ lo2 i))) (= (select L2 j) (select L (+ lo (- j lo2))))) :pattern ((select L2 j))))
+               (forall ((j Int)) (! (=> (and (<= wo2 j) (< j (+ wo2 i))) (= (select W2 j) (select W (+ wo (- j wo2))))) :pattern ((select W2 j))))
+               (forall ((j Int)) (! (=> (and (<= (+ lo2 i) j) (< j (+ lo2 (- n 1)))) (= (select L2 j) (select L (+ lo (- j lo2) 1)))) :pattern ((select L2 j))))
+               (forall ((j Int)) (! (=> (and (<= (+ wo2 i) j) (< j (+ wo2 (- n 1)))) (= (select W2 j) (select W (+ wo (- j wo2) 1)))) :pattern ((select W2 j)))))
+          (= (isum L2 lo2 W2 wo2 false A (- n 1)) (isum L lo W wo false A n))))
+     :pattern ((lem_isum_delete L2 lo2 W2 wo2 L lo W wo A n i)))))
+; sum of the weights (1 each when W is nil)
+;@sig wsum : rowz int -> int
+(declare-fun wsum ((Array Int Int) Int Bool Int) Int)
+(assert (forall ((W (Array Int Int)) (wo Int) (wn Bool) (n Int))
+  (! (= (wsum W wo wn n) (ite (<= n 0) 0 (+ (wsum W wo wn (- n 1)) (ite wn 1 (select W (+ wo (- n 1)))))))
+     :pattern ((wsum W wo wn n)))))
+;@lemma wsum_store_outside
+(assert (forall ((W (Array Int Int)) (j Int) (v Int) (wo Int) (wn Bool) (n Int))
+  (! (=> (or wn (< j wo) (>= j (+ wo n))) (= (wsum (store W j v) wo wn n) (wsum W wo wn n)))
+     :pattern ((wsum (store W j v) wo wn n)))))
+; negating every literal: sum w*[-l] = wsum - sum w*[l]  (explicit lemma instance)
+;@sig lem_isum_neg : row row rowz asg int -> bool
+(declare-fun lem_isum_neg ((Array Int Int) Int (Array Int Int) Int (Array Int Int) Int Bool (Array Int Bool) Int) Bool)
+;@lemma isum_neg
+(assert (forall ((L2 (Array Int Int)) (lo2 Int) (L (Array Int Int)) (lo Int) (W (Array Int Int)) (wo Int) (wn Bool) (A (Array Int Bool)) (n Int))
+  (! (and (lem_isum_neg L2 lo2 L lo W wo wn A n)
+      (=> (forall ((j Int)) (! (=> (and (<= lo2 j) (< j (+ lo2 n))) (and (= (select L2 j) (- (select L (+ lo (- j lo2))))) (not (= (select L2 j) 0)))) :pattern ((select L2 j))))
+          (= (isum L2 lo2 W wo wn A n) (- (wsum W wo wn n) (isum L lo W wo wn A n)))))
+     :pattern ((lem_isum_neg L2 lo2 L lo W wo wn A n)))))
+;@lemma wsum_nil
+(assert (forall ((W (Array Int Int)) (wo Int) (wn Bool) (n Int))
+  (! (=> wn (= (wsum W wo wn n) (ite (<= n 0) 0 n))) :pattern ((wsum W wo wn n)))))
